@@ -3,9 +3,9 @@ import re, itertools
 from vlib import core, drivers
 
 PROP = 'C12'
-MODULES = ['PistacheModel.Props.C12', 'PistacheModel.Props.C12Many']
+MODULES = ['PistacheModel.Props.C12', 'PistacheModel.Props.C12Many', 'PistacheModel.Props.C12Term']
 THEOREMS = ['Pistache.PromiseMT.Props.' + t for t in ('reach_closed_all', 'reachable_in_reach', 'at_most_once', 'exactly_once_fulfilled', 'exactly_once_rejected', 'accesses_locked', 'progress', 'steps_decrease', 'old_code_loses_continuation')] \
-    + ['Pistache.PromiseN.Props.' + t for t in ('at_most_once', 'exactly_once', 'not_before_attach', 'pending_is_queued', 'settle_never_throws', 'lock_owner', 'some_thread_moves', 'rank_monotone', 'order_nodup', 'runs_in_list_order', 'split_settle_loses_continuation', 'split_settle_lost_forever')]
+    + ['Pistache.PromiseN.Props.' + t for t in ('at_most_once', 'exactly_once', 'not_before_attach', 'pending_is_queued', 'settle_never_throws', 'lock_owner', 'some_thread_moves', 'rank_monotone', 'order_nodup', 'runs_in_list_order', 'split_settle_loses_continuation', 'split_settle_lost_forever', 'round_progress', 'rounds_bound', 'round_robin_all_return', 'round_robin_all_run_once')]
 
 SCEN = [('P', 'none'), ('D', 'pre'), ('D', 'race')]
 OUT = ['res', 'rej']
